@@ -22,6 +22,10 @@ ASSUMPTIONS = [
 RESPONSES = ["y", "y", "y", "f", "h", "g['g1']", "np.abs(y)", "u[p]", "prop(s, n)", "p(s, 40)"]
 
 
+# an indicator computed inside a call next to another column: whatever container the helper returns, rows stay with their rows
+NUM_POOL = tuple(rich.NUM + ["I(binary(g, 'g1') * z)", "np.add(binary(f, 'a'), x)"])
+
+
 @st.composite
 def case_strategy(draw):
     spec = draw(rich.frame_strategy(with_index=False, extra_unused=False, num_styles=("general", "general", "offset", "intdtype", "symmetric", "ties", "smallint", "uint")))
@@ -30,7 +34,7 @@ def case_strategy(draw):
     spec["cols"].append({"name": "s", "kind": "int", "values": [(i * 5) % (t_ + 1) for i, t_ in enumerate(trials)]})
     spec["cols"].append({"name": "n", "kind": "int", "values": trials})
     resp = draw(st.sampled_from(RESPONSES))
-    d = draw(rich.design(response=resp))
+    d = draw(rich.design(num_pool=NUM_POOL, response=resp))
     if rich.bases(resp) & (rich.used_columns(dict(d, response=None)) - set()):
         d = dict(d, response="y")
         d["formula"] = rich.render(d)
@@ -81,6 +85,8 @@ def transformed(spec, t, used):
             s["index"] = [-(i % 4) for i in range(n)]
         else:
             s["index"] = [[i % 2, "a%d" % (i // 2)] for i in range(n)]
+        # the index also gets a name: the name of an object of the namespace, or of nothing at all
+        s["index_names"] = [["lv", "np"], ["np", "lv"], ["row", "lv"], ["lv", "lv"], None, ["k2", "j"]][t["seed"]]
     elif kind == "columns":
         s["cols"] = [s["cols"][i] for i in t["order"]]
     elif kind == "add_unused":
